@@ -129,7 +129,7 @@ class Terms(object):
                 lo = self.term(func, node, e.slice.lower, env, depth) if e.slice.lower is not None else C(None)
                 hi = self.term(func, node, e.slice.upper, env, depth) if e.slice.upper is not None else C(None)
                 st = self.term(func, node, e.slice.step, env, depth) if e.slice.step is not None else C(None)
-                return ("slice", base, lo, hi, st)
+                return self.mkslice(base, lo, hi, st)
             idx = self.term(func, node, e.slice, env, depth)
             return self.subscript(base, idx)
         if isinstance(e, ast.Compare):
@@ -327,8 +327,22 @@ class Terms(object):
             return next(iter(s))
         return ("phi", frozenset(s))
 
+    @staticmethod
+    def mkslice(base, lo, hi, st):
+        """x[a:][:h] == x[a:h] for a >= 0 and h negative or absent (both select the intersection of the two ranges)."""
+        none = ("c", None)
+        if (base[0] == "slice" and base[3] == none and base[4] == none and st == none and lo == none
+                and base[2][0] == "c" and isinstance(base[2][1], int) and base[2][1] >= 0
+                and (hi == none or (hi[0] == "c" and isinstance(hi[1], int) and not isinstance(hi[1], bool) and hi[1] < 0))):
+            return ("slice", base[1], base[2], hi, none)
+        return ("slice", base, lo, hi, st)
+
     def subscript(self, base, idx):
         self._tables()
+        # x[a:][-k] is x[-k] (for a >= 0, whenever the former exists: the last elements of a suffix are the last elements)
+        if (base[0] == "slice" and base[3] == ("c", None) and base[4] == ("c", None) and base[2][0] == "c" and isinstance(base[2][1], int) and base[2][1] >= 0
+                and idx[0] == "c" and isinstance(idx[1], int) and not isinstance(idx[1], bool) and idx[1] < 0):
+            base = base[1]
         if base[0] == "c" and isinstance(base[1], dict):
             if self._wire and base[1] == self._wire:
                 if idx[0] == "c":
